@@ -150,10 +150,13 @@ func FailAtWith(k int, kind string) []Step {
 }
 
 // FailingWriter accepts Limit bytes in total and then fails with a short count.
+// With Full set, the failing call reports the whole count together with the error (a destination that took the
+// bytes and then reported a problem, e.g. a failed flush or sync).
 type FailingWriter struct {
 	Limit int
 	Got   []byte
 	Calls int
+	Full  bool
 }
 
 func (w *FailingWriter) Write(p []byte) (int, error) {
@@ -163,6 +166,10 @@ func (w *FailingWriter) Write(p []byte) (int, error) {
 		room = 0
 	}
 	if len(p) > room {
+		if w.Full {
+			w.Got = append(w.Got, p...)
+			return len(p), ErrInjected
+		}
 		w.Got = append(w.Got, p[:room]...)
 		return room, ErrInjected
 	}
